@@ -88,7 +88,7 @@ pub fn run(ctx: &mut Ctx) {
         }
         let s = inputs::small_string(i, small_len);
         for m in masks {
-            eval(ctx, &EncCase { input: s.clone(), list: "default".into(), mask: *m, macros: true, fnc1: false, eci: None }, "small_scope_exhaustive");
+            eval(ctx, &EncCase { input: s.clone(), list: "default".into(), mask: *m, macros: true, fnc1: false, eci: None, order: 0 }, "small_scope_exhaustive");
         }
     }
     let n = ctx.budget(300_000, 30_000_000);
